@@ -80,7 +80,7 @@ class Region:
 
 
 class Frame:
-    __slots__ = ('fn', 'block', 'idx', 'prev', 'locals', 'allocas', 'callinstr')
+    __slots__ = ('fn', 'block', 'idx', 'prev', 'locals', 'allocas', 'callinstr', 'serial')
 
     def __init__(self, fn):
         self.fn = fn
@@ -90,6 +90,7 @@ class Frame:
         self.locals = {}
         self.allocas = []
         self.callinstr = None
+        self.serial = 0
 
     def copy(self):
         f = Frame.__new__(Frame)
@@ -100,6 +101,7 @@ class Frame:
         f.locals = dict(self.locals)
         f.allocas = list(self.allocas)
         f.callinstr = self.callinstr
+        f.serial = self.serial
         return f
 
 
@@ -329,6 +331,10 @@ class Executor:
         if isinstance(ty, PtrT):
             r = self.new_region(st, None, 'opaque', name, lazy=True)
             return Ptr(r.rid, 0)
+        if isinstance(ty, StructT):
+            return [self.fresh_of(st, e, name) for e in ty.els]
+        if isinstance(ty, ArrT):
+            return [self.fresh_of(st, ty.el, name) for _ in range(ty.n)]
         raise Unsupported('fresh of %r' % (ty,))
 
     def load(self, st, p, ty):
@@ -512,6 +518,10 @@ class Executor:
             self.write_hook(st, r, off, size, v)
 
     write_hook = None
+    tolerant = False
+    fork_bound = None
+    no_prune = False
+    opaque_defined = None
 
     def clobber(self, r, off, size):
         cells = r.cells
@@ -580,6 +590,17 @@ class Executor:
             n2 = z3.simplify(n)
             if z3.is_bv_value(n2):
                 n = n2.as_long()
+            elif getattr(self, 'symbolic_new', False):
+                # copy of unknown length: the destination object holds arbitrary contents afterwards
+                rd = self.region(st, d)
+                rd.cells.clear()
+                rd.fills = []
+                rd.lazy = True
+                rd.writes += 1
+                st.event('symbolic-length-copy', where=self.where(st))
+                if self.write_hook:
+                    self.write_hook(st, rd, d.off, None, None)
+                return
             else:
                 raise Unsupported('memcpy with symbolic length')
         if n == 0:
@@ -762,6 +783,11 @@ class Executor:
         if z3.is_false(c):
             st.choices.append(False)
             return False
+        if self.no_prune:
+            # over-approximate exploration: both branches are followed without asking the solver (the caller
+            # decides feasibility of the paths it cares about)
+            self._fork_models = (None, None)
+            raise ForkRequest(c)
         # model-guided
         mv = None
         if st.model is not None and not self.slice_pc:
@@ -1466,6 +1492,11 @@ class Executor:
                 self.run(s, work)
             except PathEnd as e:
                 s.outcome = (e.kind, e.info)
+            except Unsupported as e:
+                if not self.tolerant or 'time limit' in str(e):
+                    raise
+                s.outcome = ('unsupported', str(e))
+                self.stats['unsupported_paths'] = self.stats.get('unsupported_paths', 0) + 1
             if s.outcome and s.outcome[0] == 'infeasible':
                 continue
             self.stats['paths'] += 1
@@ -1495,6 +1526,13 @@ class Executor:
                 st.choices = []
             except ForkRequest as f:
                 self.stats['forks'] += 1
+                if self.fork_bound is not None:
+                    key = ('forks', st.frames[-1].serial, self.where(st))
+                    n = st.data.get(key, 0) + 1
+                    st.data[key] = n
+                    if n > self.fork_bound:
+                        st.event('unwinding-bound-exceeded', where=self.where(st))
+                        raise PathEnd('unwind', self.where(st))
                 m1, m2 = self._fork_models
                 s2 = st.fork()
                 st.choices = st.choices + [True]
@@ -1878,7 +1916,7 @@ class Executor:
                 self.finish_call(st, fr, I, r)
             return
         fn = self.m.functions.get(name)
-        if fn is None:
+        if fn is None or (self.opaque_defined is not None and name in self.opaque_defined):
             if self.undefined_handler is not None:
                 r = self.undefined_handler(self, st, name, args, I)
                 if r is not NotImplemented:
@@ -1891,6 +1929,7 @@ class Executor:
         for (ty, pn, at), a in zip(fn.params, args):
             nf.locals[pn] = a
         nf.callinstr = I
+        nf.serial = st.steps
         if len(st.frames) > 200:
             raise PathEnd('recursion')
         st.frames.append(nf)
